@@ -103,14 +103,30 @@ pub fn variant_for(t: u8) -> Option<&'static str> {
 
 #[inline]
 pub fn get_bits(b: &[u8], off: usize, w: usize) -> Option<u64> {
-    if off + w > b.len() * 8 || w > 64 {
+    if off + w > b.len() * 8 || w > 56 {
+        if w > 56 && off + w <= b.len() * 8 {
+            // rare wide read: bit by bit
+            let mut v = 0u64;
+            for p in off..off + w {
+                v = (v << 1) | ((b[p / 8] >> (7 - p % 8)) & 1) as u64;
+            }
+            return Some(v);
+        }
         return None;
     }
-    let mut v = 0u64;
-    for p in off..off + w {
-        v = (v << 1) | ((b[p / 8] >> (7 - p % 8)) & 1) as u64;
+    if w == 0 {
+        return Some(0);
     }
-    Some(v)
+    // gather the (at most 8) bytes that contain the field into one big-endian word
+    let first = off / 8;
+    let last = (off + w - 1) / 8;
+    let mut acc = 0u64;
+    for &x in &b[first..=last] {
+        acc = (acc << 8) | x as u64;
+    }
+    let nbytes = last - first + 1;
+    let tail = nbytes * 8 - (off % 8) - w;
+    Some((acc >> tail) & ((1u64 << w) - 1))
 }
 
 #[inline]
@@ -344,12 +360,12 @@ impl<'a> B<'a> {
             (Some(a), Some(b), Some(c)) => (a, b, c),
             _ => return,
         };
-        self.rpush("radio.kind", off, 19, Exp::Is(Val::S("sotdma".into())));
+        self.rpush("radio.kind", off, 19, Exp::Is(Val::T("sotdma")));
         self.rpush("radio.sync", off, 2, Exp::Is(Val::U(sync)));
         self.rpush("radio.timeout", off + 2, 3, Exp::Is(Val::U(tmo)));
         match tmo {
             0 => {
-                self.rpush("radio.sub", off + 5, 14, Exp::Is(Val::S("slot_offset".into())));
+                self.rpush("radio.sub", off + 5, 14, Exp::Is(Val::T("slot_offset")));
                 self.rpush("radio.sub.value", off + 5, 14, Exp::Is(Val::I(sub as i64)));
             }
             1 => {
@@ -357,7 +373,7 @@ impl<'a> B<'a> {
                 let hour = sub >> 9;
                 let min7 = (sub >> 2) & 0x7f;
                 let min6 = (sub >> 2) & 0x3f;
-                self.rpush("radio.sub", off + 5, 14, Exp::Is(Val::S("utc".into())));
+                self.rpush("radio.sub", off + 5, 14, Exp::Is(Val::T("utc")));
                 self.rpush("radio.sub.hour", off + 5, 5, Exp::Is(Val::U(hour)));
                 // U2: minute >= 64 is not a time; accept the 7-bit and the 6-bit reading
                 let e = if min7 == min6 {
@@ -368,11 +384,11 @@ impl<'a> B<'a> {
                 self.rpush("radio.sub.minute", off + 10, 7, e);
             }
             2 | 4 | 6 => {
-                self.rpush("radio.sub", off + 5, 14, Exp::Is(Val::S("slot_number".into())));
+                self.rpush("radio.sub", off + 5, 14, Exp::Is(Val::T("slot_number")));
                 self.rpush("radio.sub.value", off + 5, 14, Exp::Is(Val::I(sub as i64)));
             }
             _ => {
-                self.rpush("radio.sub", off + 5, 14, Exp::Is(Val::S("received_stations".into())));
+                self.rpush("radio.sub", off + 5, 14, Exp::Is(Val::T("received_stations")));
                 self.rpush("radio.sub.value", off + 5, 14, Exp::Is(Val::I(sub as i64)));
             }
         }
@@ -388,7 +404,7 @@ impl<'a> B<'a> {
             (Some(a), Some(b), Some(c), Some(d)) => (a, b, c, d),
             _ => return,
         };
-        self.rpush("radio.kind", off, 19, Exp::Is(Val::S("itdma".into())));
+        self.rpush("radio.kind", off, 19, Exp::Is(Val::T("itdma")));
         self.rpush("radio.sync", off, 2, Exp::Is(Val::U(sync)));
         self.rpush("radio.increment", off + 2, 13, Exp::Is(Val::I(inc as i64)));
         self.rpush("radio.num_slots", off + 15, 3, Exp::Is(Val::U(n)));
@@ -823,8 +839,20 @@ pub struct Mismatch {
 /// tables must enumerate the same field set.
 pub fn compare(exp: &Expectation, got: &[(Fid, Val)], out: &mut Vec<Mismatch>) {
     out.clear();
+    let mut hint = 0usize;
     for sf in &exp.fields {
-        match got.iter().find(|(id, _)| *id == sf.id) {
+        // both lists are in layout order: look at the expected position first
+        let found = if hint < got.len() && got[hint].0 == sf.id {
+            Some(hint)
+        } else if hint + 1 < got.len() && got[hint + 1].0 == sf.id {
+            Some(hint + 1)
+        } else {
+            got.iter().position(|(id, _)| *id == sf.id)
+        };
+        if let Some(p) = found {
+            hint = p + 1;
+        }
+        match found.map(|p| &got[p]) {
             None => {
                 if !sf.if_reported {
                     out.push(Mismatch {
